@@ -47,6 +47,15 @@ static void densityCase(Rng &rng, CaseResult &r) {
   double target = rng.unif(0.02, 0.98);
   double margin = rng.chance(0.5) ? 0.0 : rng.unif(0.0, 2.0);
   double cap = rng.chance(0.5) ? 1.0 : rng.unif(0.02, 1.2);
+  if (rng.chance(0.25)) {
+    // cap just above the largest exact target width (and, half of the time, all movable cells of one width)
+    if (rng.chance(0.5)) { int w1 = 0; for (int i = 0; i < c0.nbCells(); ++i) if (!c0.cellIsFixed_[i] && c0.cellWidth_[i] > 0) { if (!w1) w1 = c0.cellWidth_[i]; c0.cellWidth_[i] = w1; } }
+    long long a0 = 0; int wmax = 0, mrw = 0;
+    for (int i = 0; i < c0.nbCells(); ++i) if (!c0.cellIsFixed_[i]) { a0 += (long long)c0.cellWidth_[i] * c0.cellHeight_[i]; if (c0.cellHeight_[i] > 0) wmax = std::max(wmax, c0.cellWidth_[i]); }
+    for (auto &row : c0.rows_) mrw = std::max(mrw, row.width());
+    long long av = availArea(c0, margin);
+    if (a0 > 0 && av > 0 && mrw > 0 && target * av > a0) cap = (wmax * (target * av / a0) + rng.unif(0.0, 0.95)) / mrw;
+  }
   if (r.needSample()) r.sample = vf::J::obj().kv("api", "expandCellsToDensity").kv("target", target).kv("margin", margin).kv("cap", cap).kraw("circuit", circuitJson(c0)).str();
   if (r.dumpOnly) return;
   Circuit c = c0;
@@ -83,6 +92,14 @@ static void densityCase(Rng &rng, CaseResult &r) {
     double d0 = (double)area0 / avail;
     if (d0 < target) {
       if ((double)area1 > target * avail + maxH + 1e-6 * avail) r.fail("C18:density-over-target", "movable area " + std::to_string(area1) + " > target*available " + std::to_string(target * avail) + " + max cell height " + std::to_string(maxH));
+      // "reachable without hitting the per-cell cap", decided on the exact (real-valued) widths: every movable cell scaled by
+      // the common ratio stays at or below the cap width. Then the integer result must be within one cell height of the target,
+      // whether or not some rounded width happens to equal floor(cap).
+      double ratio = target * (double)avail / (double)area0;
+      bool reachable = true;
+      for (int i = 0; i < c.nbCells(); ++i) if (!c.cellIsFixed_[i] && c0.cellHeight_[i] > 0 && (double)c0.cellWidth_[i] * ratio > capW * (1 - 1e-9)) reachable = false;
+      if (reachable) r.count("targets_reachable_below_the_cap");
+      if (reachable && std::fabs((double)area1 - target * avail) > maxH + 1 + 1e-6 * avail) r.fail("C18:density-target-not-reached", "movable area " + std::to_string(area1) + " target*available " + std::to_string(target * avail) + " max cell height " + std::to_string(maxH) + " (every exact width stays below the cap width " + std::to_string(capW) + ")");
       if (!capped && std::fabs((double)area1 - target * avail) > maxH + 1 + 1e-6 * avail) r.fail("C18:density-target-not-reached", "movable area " + std::to_string(area1) + " target*available " + std::to_string(target * avail) + " max cell height " + std::to_string(maxH) + " (no cell hit the cap)");
       sig += capped ? "c" : "r";
     } else {
